@@ -12,15 +12,19 @@ Protocol (harness/drv_nestshape.cpp, lean/Drivers/C09Shape.lean):
     "ok cyc=<root cycle times> | <t> d={leaf=value,..} v={..} g={leaves modified but unset} | ..")
 
 args cf cr cl cs cn xf sc: the body's inputs are CAPTURED outer ports (stream nestshape-capture; Lean: Model/Capture.lean).
+args <form><code>, form tl tb il ib t2, code i e m k: TWINS on the elements of one structured parameter (stream
+nestshape-twins; Lean: Model/BoundaryKey.lean).  args rs: a REF-producing terminal as plain result (Model/NestRef.lean).
+mode s<d>@<k>: the definition is started late, inside a switch_ branch selected at cycle k, inlined (d=0) or nested_ at depth d.
 
 The monitor tags the known discrepancy of COMPOSED results (stdlib::to_tsb / to_tsl in the body) with the stable prefix
 [C09-composed]; such bodies only occur in the stream nestshape-composed."""
 import itertools
 import os
+import re
 from vlib import Case, Stream, BUILD, model_cmd
 
 ID = "C09S"
-LEAN_MODULES = ["HgVerif.Props.C09Shape", "HgVerif.Props.C09Capture"]
+LEAN_MODULES = ["HgVerif.Props.C09Shape", "HgVerif.Props.C09Capture", "HgVerif.Props.C09BoundaryKey", "HgVerif.Props.C09Findings"]
 THEOREMS = [
     "HgVerif.NestShape.forwarded_delta_eq_body_delta",
     "HgVerif.NestShape.nested_delta_eq_inlined_delta",
@@ -37,6 +41,13 @@ THEOREMS = [
     "HgVerif.Capture.captured_binding_through_levels",
     "HgVerif.Capture.indexFor_frozen_stable",
     "HgVerif.Capture.node_keyed_table_aliases_ports",
+    "HgVerif.BoundaryKey.sourceKeyFor_injective",
+    "HgVerif.BoundaryKey.keyOf_eq_iff",
+    "HgVerif.BoundaryKey.instance_eq_iff_key_eq",
+    "HgVerif.BoundaryKey.merged_iff_same_def_scalars_sources",
+    "HgVerif.BoundaryKey.served_by_own_inputs",
+    "HgVerif.BoundaryKey.no_declared_path_merges_twins",
+    "HgVerif.NestRef.ref_terminal_retarget_one_evaluation_late",
 ]
 CXX_TARGETS = ["hgv_nestshape"]
 RULE = ("nestshape streams: one sub-graph definition with a STRUCTURED result (TS | TSB of 2-4 scalar fields | fixed TSL of "
@@ -54,9 +65,20 @@ RULE = ("nestshape streams: one sub-graph definition with a STRUCTURED result (T
         "CAPTURED outer ports instead of (sc: in addition to) declared arguments - two fields of one outer TSB-producing "
         "node in either order (cf, cr), two elements of one outer TSL node (cl), the same field twice (cs, control), one "
         "field each of two nodes (cn, control), two fields through context::scope/get (xf), result styles node / sink / "
-        "proj / captured pass-through - the two captured ports carry different values and tick patterns.  A case is non-trivial when the inlined run "
+        "proj / captured pass-through - the two captured ports carry different values and tick patterns.  Stream "
+        "nestshape-twins: the body applies the SAME node type with equal scalars (ident, or a self-scheduling echo) to two "
+        "elements of ONE structured parameter - a peered TSL / TSB output (tl, tb) or a structural {a,b} initializer (il, ib) "
+        "- and the rule body reads the twin outputs; controls: twins on two separate scalar parameters (t2), different node "
+        "types (m) or different scalars (k) per element; the elements carry different values and tick times.  Stream "
+        "nestshape-findings holds the three deviations of the current code, each tagged: a REF-producing terminal exposed "
+        "as a plain result ([C09-ref-terminal]), a pass-through of a structural {a,b} argument ([C09-struct-pass]) and "
+        "definitions started LATE inside a switch_ branch, nested (s1@k, s2@k) against inlined in the branch (s0@k) "
+        "([C09-late-start]).  A case is non-trivial when the inlined run "
         "ticked in >=2 cycles; distinct by case text")
-TRUSTED = ["the recorder reads modified()/valid()/value() per LEAF of the outer result (an Unchecked input); what "
+TRUSTED = ["late start (modes s<d>@<k>): that a switch_ branch binds its boundary inputs SAMPLED while a nested_ node binds "
+           "them plain and only schedules the consumers is part of the body interpreter of lean/Drivers/C09Shape.lean "
+           "(correspondence), not of a theorem",
+           "the recorder reads modified()/valid()/value() per LEAF of the outer result (an Unchecked input); what "
            "delta_value()/the dense recorder would capture was cross-checked by hand (HGV_NESTSHAPE_DV=1) only",
            "the body vocabulary interpreter (rules, gate on the first argument, timer) of lean/Drivers/C09Shape.lean is part of "
            "the correspondence, not of the theorems, which quantify over arbitrary per-leaf writes",
@@ -70,11 +92,28 @@ ASSUMPTIONS = ["the nested graph is started with its parent at the start of the 
 NS = [os.path.join(BUILD, "hgv_nestshape")]
 PAIRS = ["ts:s1", "ts:ab", "b2:s2", "b2:ab", "b2:bs", "b3:s3", "b3:s1", "b4:s2", "b4:al", "l2:s1", "l2:al",
          "l3:s2", "l3:bs", "l4:s1", "l4:s3", "bl:s2", "bl:ab", "lb:s2", "lb:al"]
+BASE_PAIRS = list(PAIRS)
 CAP_KINDS = ["cf", "cr", "cl", "cs", "cn", "xf"]
 CAP_PAIRS = [r + ":" + k for r in ("ts", "b2", "l3") for k in CAP_KINDS] + ["b3:sc"]
 PAIRS = PAIRS + CAP_PAIRS
+TWIN_FORMS = ["tl", "tb", "il", "ib", "t2"]          # one peered TSL / TSB output, a structural {a,b} initializer, two scalars
+TWIN_CODES = ["i", "e", "m", "k"]                    # ident+ident, echo+echo, ident+echo (control), echo(2)+echo(3) (control)
+TWIN_PAIRS = ["l3:" + f + c for f in TWIN_FORMS for c in TWIN_CODES] + \
+             ["l2:tli", "l2:tle", "l2:ili", "l2:ile", "b2:tbi", "b2:tbe", "b2:ibi", "b2:ibe"]
+PAIRS = PAIRS + TWIN_PAIRS + ["ts:rs"]
+SW_PAIRS = ["ts:s1", "b2:s2", "l3:s2", "b3:s3"]      # definitions that can be started late inside a switch_ branch
+SW_MODE = re.compile(r"^s([0-2])@([0-9]+)$")
 LEAVES = {"ts": 1, "b2": 2, "b3": 3, "b4": 4, "l2": 2, "l3": 3, "l4": 4, "bl": 3, "lb": 4}
-CHANS = {"s1": 1, "s2": 2, "s3": 3, "ab": 2, "al": 2, "bs": 3, "cf": 2, "cr": 2, "cl": 2, "cs": 1, "cn": 2, "xf": 2, "sc": 3}
+CHANS = {"rs": 3, "s1": 1, "s2": 2, "s3": 3, "ab": 2, "al": 2, "bs": 3, "cf": 2, "cr": 2, "cl": 2, "cs": 1, "cn": 2, "xf": 2, "sc": 3}
+
+
+for _f in ["tl", "tb", "il", "ib", "t2"]:
+    for _c in "iemk":
+        CHANS[_f + _c] = 2
+
+
+def is_twin(args):
+    return len(args) == 3
 
 
 def is_capture(args):
@@ -88,6 +127,8 @@ FLAT = ("b2", "b3", "b4", "l2", "l3", "l4")
 
 
 def pass_ok(res, args):
+    if is_twin(args):
+        return res != "l3" and args[:2] != "t2"
     return (res == "ts" and (args[0] == "s" or args in CAP_KINDS)) or (res == "b2" and args in ("ab", "bs")) or (res == "l2" and args == "al")
 
 
@@ -122,7 +163,7 @@ def parse_case(case):
                     except ValueError:
                         return None
             hist.append(row)
-        elif t[0] == "run" and len(t) == 2 and t[1] in MODES:
+        elif t[0] == "run" and len(t) == 2 and (t[1] in MODES or SW_MODE.match(t[1])):
             runs.append((i, t[1]))
         else:
             return None
@@ -199,13 +240,30 @@ def check_trace(stream, case, out):
             runs[mode] = parse_run(res)
         except Exception as e:
             bad.append("[lines] unreadable run line (%s): %s" % (mode, str(e)[:60]))
-    if "inl" not in runs:
+
+    def ref_of(mode):
+        m = SW_MODE.match(mode)
+        return ("s0@" + m.group(2)) if m else "inl"
+
+    base = "inl" if "inl" in runs else next((m for m in runs if m.startswith("s0@")), None)
+    if base is None:
         return bad, comp, feats
-    icyc, ient = runs["inl"]
+    icyc, ient = runs[base]
     ticks = [t for t in sorted(ient) if ient[t][0]]
     if len(ticks) >= 2:
         feats.add("inlined-ticked>=2")
     nl = LEAVES[p["res"]]
+    if is_twin(p["args"]):
+        feats.add("twins:" + {"tl": "elements-of-one-peered-TSL", "tb": "fields-of-one-peered-TSB", "il": "elements-of-a-{a,b}-initializer(TSL)",
+                              "ib": "fields-of-a-{a,b}-initializer(TSB)", "t2": "two-separate-scalar-parameters(control)"}[p["args"][:2]])
+        feats.add("twin:" + {"i": "ident+ident", "e": "echo+echo(self-scheduling)", "m": "ident+echo(different-node-types,control)",
+                             "k": "echo(2)+echo(3)(different-scalars,control)"}[p["args"][2]])
+        if any(row[0] != row[1] for row in p["hist"]):
+            feats.add("twins:the-two-elements-carry-different-streams")
+    if p["args"] == "rs":
+        feats.add("ref-terminal-as-plain-result")
+        if sum(1 for row in p["hist"] if row[0] is not None) >= 2:
+            feats.add("ref-terminal:retargets")
     # coverage of the hard cases: leaves that tick early / once / late
     if ticks:
         first = ticks[0]
@@ -225,19 +283,30 @@ def check_trace(stream, case, out):
         feats.add("engine-cycle-before-first-tick(gate-closed-or-no-leaf)")
     if any(all(x is None for x in row) for row in p["hist"]):
         feats.add("idle-step(gap)")
-    if any(t not in [1 + k for k, row in enumerate(p["hist"]) if any(x is not None for x in row)] for t in icyc):
+    if base == "inl" and any(t not in [1 + k for k, row in enumerate(p["hist"]) if any(x is not None for x in row)] for t in icyc):
         feats.add("timer-only-cycle")
     for mode, (cyc, ent) in runs.items():
-        if mode == "inl":
+        ref = ref_of(mode)
+        if mode == ref:
             continue
-        feats.add("mode=" + mode)
+        if ref not in runs:
+            continue
+        rcyc, rent = runs[ref]
+        sw = SW_MODE.match(mode)
+        feats.add("mode=" + (("late-start-in-switch-branch,depth-%s" % sw.group(1)) if sw else mode))
+        if sw:
+            k = int(sw.group(2))
+            feats.add("late-start:first-cycle" if k == 1 else "late-start:after-the-first-cycle")
+            if any(x is not None for row in p["hist"][:k - 1] for x in row):
+                feats.add("late-start:an-argument-is-valid-before-the-start")
         if any(e[2] for e in ent.values()):
             feats.add("ghost-tick(modified-but-unset-leaf,depth>=2)")
-        if cyc != icyc:
-            bad.append("[C09-cycles] the engine cycles of the nested run (%s) differ from the inlined run: nested %s, inlined %s"
-                       % (mode, cyc, icyc))
-        for t in sorted(set(ient) | set(ent)):
-            di, vi, _ = ient.get(t, ({}, None, []))
+        diffs = []          # (t, tag, message)
+        if cyc != rcyc:
+            diffs.append((0, "cycles", "[C09-cycles] the engine cycles of the nested run (%s) differ from the reference run (%s): nested %s, reference %s"
+                          % (mode, ref, cyc, rcyc)))
+        for t in sorted(set(rent) | set(ent)):
+            di, vi, _ = rent.get(t, ({}, None, []))
             dn, vn, _ = ent.get(t, ({}, None, []))
             if not di and not dn:
                 continue            # an evaluation of the recorder without a valued tick (see TRUSTED / ghost_iff)
@@ -246,23 +315,43 @@ def check_trace(stream, case, out):
             lost = sorted(q for q in di if q not in dn)
             extra = sorted(q for q in dn if q not in di)
             if lost:
-                bad.append("[C09-lost] nested (%s) vs inlined: leaf/leaves %s ticked in the inlined wiring at t=%d but not in the nested one: "
-                           "inlined d=%s nested d=%s" % (mode, lost, t, fmt(di), fmt(dn)))
+                diffs.append((t, "lost", "[C09-lost] nested (%s) vs %s: leaf/leaves %s ticked in the reference wiring at t=%d but not in the nested one: "
+                              "reference d=%s nested d=%s" % (mode, ref, lost, t, fmt(di), fmt(dn))))
             elif extra:
                 cur = vn or {}
                 same_rest = all(dn[q] == di[q] for q in di)
                 if p["style"] == "comp" and same_rest and all(cur.get(q) == dn[q] for q in extra) and (vi is None or vi == vn):
-                    comp.append("[C09-composed] composed result (to_tsb/to_tsl): the nested wiring (%s) re-reports leaf/leaves %s that did not tick "
-                                "at t=%d: inlined d=%s nested d=%s" % (mode, extra, t, fmt(di), fmt(dn)))
+                    diffs.append((t, "composed", "[C09-composed] composed result (to_tsb/to_tsl): the nested wiring (%s) re-reports leaf/leaves %s that did not tick "
+                                  "at t=%d: inlined d=%s nested d=%s" % (mode, extra, t, fmt(di), fmt(dn))))
                 else:
-                    bad.append("[C09-extra] nested (%s) vs inlined: leaf/leaves %s ticked in the nested wiring at t=%d but not in the inlined one: "
-                               "inlined d=%s nested d=%s" % (mode, extra, t, fmt(di), fmt(dn)))
+                    diffs.append((t, "extra", "[C09-extra] nested (%s) vs %s: leaf/leaves %s ticked in the nested wiring at t=%d but not in the reference one: "
+                                  "reference d=%s nested d=%s" % (mode, ref, extra, t, fmt(di), fmt(dn))))
             elif di != dn:
-                bad.append("[C09-value] nested (%s) vs inlined: the deltas at t=%d differ in values: inlined d=%s nested d=%s"
-                           % (mode, t, fmt(di), fmt(dn)))
+                diffs.append((t, "value", "[C09-value] nested (%s) vs %s: the deltas at t=%d differ in values: reference d=%s nested d=%s"
+                              % (mode, ref, t, fmt(di), fmt(dn))))
             else:
-                bad.append("[C09-value] nested (%s) vs inlined: the full values at t=%d differ: inlined v=%s nested v=%s"
-                           % (mode, t, fmt(vi or {}), fmt(vn or {})))
+                diffs.append((t, "value", "[C09-value] nested (%s) vs %s: the full values at t=%d differ: reference v=%s nested v=%s"
+                              % (mode, ref, t, fmt(vi or {}), fmt(vn or {}))))
+        if not diffs:
+            continue
+        first_t, _, first_msg = diffs[0]
+        detail = first_msg.split("] ", 1)[1]
+        # findings on the CURRENT code, each with its own stable tag (reported only when the whole run fits the finding)
+        if p["args"] == "rs" and all(tag != "cycles" for _, tag, _ in diffs):
+            comp.append("[C09-ref-terminal] a REF-producing terminal exposed as a plain result follows a retarget one nested evaluation late: " + detail)
+        elif p["style"] == "pass" and is_twin(p["args"]) and p["args"][0] == "i" and not any(e[0] for e in ent.values()) \
+                and all(tag == "lost" for _, tag, _ in diffs):
+            comp.append("[C09-struct-pass] a sub-graph that returns its structural {a,b} argument unchanged produces no output when nested: " + detail)
+        elif sw and int(sw.group(2)) >= 2 and any(x is not None for row in p["hist"][:int(sw.group(2)) - 1] for x in row) \
+                and all(tag != "cycles" for _, tag, _ in diffs):
+            # only when an argument was already valid at the late start (otherwise nested must equal the reference); the
+            # first visible difference can be later than the start cycle (stateful leaves: the sampled values were counted)
+            comp.append("[C09-late-start] a nested_ node started late (switch_ branch) does not present the already valid boundary inputs as "
+                        "modified to its child consumers (the branch-level wiring does): " + detail)
+        elif all(tag == "composed" for _, tag, _ in diffs):
+            comp.extend(m for _, _, m in diffs)
+        else:
+            bad.extend(m for _, tag, m in diffs if tag != "composed")
     return bad, comp, feats
 
 
@@ -289,6 +378,17 @@ def valid_case(stream, case, impl_out, model_out):
         return False
     if stream == "nestshape-capture" and not is_capture(p["args"]):
         return False
+    finding = p["args"] == "rs" or (is_twin(p["args"]) and p["style"] == "pass") or any(SW_MODE.match(m) for m in modes)
+    if finding != (stream == "nestshape-findings"):
+        return False
+    if stream == "nestshape-twins" and not is_twin(p["args"]):
+        return False
+    sw = [SW_MODE.match(m) for m in modes if SW_MODE.match(m)]
+    if sw:
+        # every late-start run needs its reference (the body inlined in the branch, same start cycle)
+        ks = {m.group(2) for m in sw}
+        return all(("s0@" + k) in modes and any(m.group(2) == k and m.group(1) != "0" for m in sw) for k in ks) and \
+            (p["res"] + ":" + p["args"]) in SW_PAIRS and p["style"] in ("node", "sink", "proj") and p["timer"][0] != "s"
     return "inl" in modes and len(set(modes)) >= 2
 
 
@@ -371,9 +471,9 @@ def case_lines(idx, res, args, style, timer, rules, hist, modes):
 
 def gen_case(rng, idx, composed=False):
     if composed:
-        pair = rng.choice([p for p in PAIRS if p[:2] in FLAT and p not in CAP_PAIRS])
+        pair = rng.choice([p for p in BASE_PAIRS if p[:2] in FLAT])
     else:
-        pair = rng.choice([p for p in PAIRS if p not in CAP_PAIRS for _ in range(3 if LEAVES[p[:2]] >= 3 else 2 if pass_ok(*p.split(":")) else 1)])
+        pair = rng.choice([p for p in BASE_PAIRS for _ in range(3 if LEAVES[p[:2]] >= 3 else 2 if pass_ok(*p.split(":")) else 1)])
     res, args = pair.split(":")
     nl, ch = LEAVES[res], CHANS[args]
     if composed:
@@ -442,6 +542,69 @@ def gen_capture_case(rng, idx):
     return Case(case_lines(idx, res, kind, style, timer, rules, hist, modes), {"pattern": "capture"})
 
 
+def gen_twin_case(rng, idx):
+    """twins on two elements of one structured parameter; the elements carry disjoint values and different tick times"""
+    form = rng.choice(["tl"] * 3 + ["tb"] * 3 + ["il"] * 3 + ["ib"] * 3 + ["t2"] * 2)
+    code = rng.choice(["i"] * 3 + ["e"] * 3 + ["m", "k"])
+    style = rng.choice(["node"] * 6 + ["sink"] * 2 + ["proj"] * 2)
+    timer = rng.choice(["t0"] * 9 + ["e2"])
+    rules = []
+    for i in range(3):
+        r = rng.random()
+        j = i % 2 if rng.random() < 0.75 else rng.randrange(2)
+        if r < 0.6:
+            rules.append("K%dx%d" % (j, j))
+        elif r < 0.75:
+            rules.append("Ax%d" % j)
+        elif r < 0.85:
+            rules.append("Aa")
+        elif r < 0.93:
+            rules.append("K%dn" % j)
+        else:
+            rules.append(rng.choice(["Fx%d" % j, "Tn" if timer != "t0" else "An", "Nk0"]))
+    n = rng.choice([4, 5, 6, 7, 8, 9])
+    hist = [[(100 * c + rng.randrange(1, 60)) if rng.random() < [0.55, 0.4][c] else None for c in range(2)] for _ in range(n)]
+    if all(row[0] is None for row in hist):
+        hist[0][0] = 3
+    if all(row[1] is None for row in hist):
+        hist[min(1, n - 1)][1] = 105
+    modes = ["inl", "n1", "n2"] + (["n3"] if rng.random() < 0.12 else [])
+    return Case(case_lines(idx, "l3", form + code, style, timer, rules, hist, modes), {"pattern": "twins"})
+
+
+def gen_finding_case(rng, idx):
+    """the three known deviations of the current code (each with controls that must stay clean)"""
+    kind = rng.choice(["ref"] * 3 + ["pass"] * 2 + ["late"] * 5)
+    if kind == "ref":
+        n = rng.choice([4, 5, 6, 8])
+        hist = []
+        for k in range(n):
+            pick = rng.choice([0, 1]) if (k == 0 or rng.random() < 0.35) else None
+            hist.append([pick, (10 + k) if rng.random() < 0.5 or k == 0 else None, (200 + k) if rng.random() < 0.5 or k == 0 else None])
+        return Case(case_lines(idx, "ts", "rs", "node", "t0", ["Nk0"], hist, ["inl", "n1", "n2"]), {"pattern": "ref"})
+    if kind == "pass":
+        res, args = rng.choice([("l2", "ili"), ("l2", "ile"), ("b2", "ibi"), ("l2", "tli"), ("b2", "tbi"), ("b2", "tbe")])
+        n = rng.choice([3, 4, 5])
+        hist = [[(100 * c + rng.randrange(1, 60)) if rng.random() < 0.55 else None for c in range(2)] for _ in range(n)]
+        hist[0][0] = 1
+        return Case(case_lines(idx, res, args, "pass", "t0", ["Nk0", "Nk0"], hist, ["inl", "n1", "n2"]), {"pattern": "pass"})
+    pair = rng.choice(SW_PAIRS)
+    res, args = pair.split(":")
+    nl, ch = LEAVES[res], CHANS[args]
+    timer = rng.choice(["t0"] * 4 + ["e2"])
+    pattern = rng.choice(["all", "per-arg", "per-arg", "once", "random", "tail-odd"])
+    rules = gen_rules(rng, nl, ch, pattern, timer != "t0")
+    n = rng.choice([4, 5, 6, 7, 8])
+    hist = [[rng.randrange(-4, 10) if rng.random() < 0.5 else None for _ in range(ch)] for _ in range(n)]
+    hist[0][0] = rng.randrange(1, 9) if rng.random() < 0.8 else hist[0][0]
+    ks = sorted(set([rng.randrange(2, n + 1)] + ([1] if rng.random() < 0.25 else []) + ([rng.randrange(1, n + 1)] if rng.random() < 0.3 else [])))
+    modes = []
+    for k in ks:
+        modes += ["s0@%d" % k, "s1@%d" % k, "s2@%d" % k]
+    style = rng.choice(["node"] * 4 + ["sink", "proj"])
+    return Case(case_lines(idx, res, args, style, timer, rules, hist, modes), {"pattern": "late"})
+
+
 def exhaustive_small(start_idx):
     """every 3-cycle history (per cycle any subset of the three arguments ticks) of the TSB{f0,f1,f2} body whose field i
     follows argument i, and of the body whose third field ticks once at the first evaluation"""
@@ -483,7 +646,13 @@ def streams(rng, tier, seed):
     comp = [gen_case(rng, 50000 + i, composed=True) for i in range(nc)]
     ncap = 150 if tier == "quick" else 4000
     capt = [gen_capture_case(rng, 70000 + i) for i in range(ncap)]
-    return [Stream("nestshape-main", NS, model_cmd("C09Shape"),
-                   _corpus("nestshape_", ("nestshape_composed_", "nestshape_capture_")) + cases, timeout=1800),
+    ntw = 150 if tier == "quick" else 4000
+    twins = [gen_twin_case(rng, 80000 + i) for i in range(ntw)]
+    nfi = 60 if tier == "quick" else 1500
+    find = [gen_finding_case(rng, 90000 + i) for i in range(nfi)]
+    special = ("nestshape_composed_", "nestshape_capture_", "nestshape_twins_", "nestshape_findings_")
+    return [Stream("nestshape-main", NS, model_cmd("C09Shape"), _corpus("nestshape_", special) + cases, timeout=1800),
             Stream("nestshape-composed", NS, model_cmd("C09Shape"), _corpus("nestshape_composed_") + comp, timeout=1800),
-            Stream("nestshape-capture", NS, model_cmd("C09Shape"), _corpus("nestshape_capture_") + capt, timeout=1800)]
+            Stream("nestshape-capture", NS, model_cmd("C09Shape"), _corpus("nestshape_capture_") + capt, timeout=1800),
+            Stream("nestshape-twins", NS, model_cmd("C09Shape"), _corpus("nestshape_twins_") + twins, timeout=1800),
+            Stream("nestshape-findings", NS, model_cmd("C09Shape"), _corpus("nestshape_findings_") + find, timeout=1800)]
